@@ -9,6 +9,24 @@ pub mod roles;
 /// Instructions;
 pub mod instructions;
 
+/// Public entries to crate-private state transitions, used only by the solver-based checks in
+/// `/verif` (`--cfg gmsol_verif`).
+#[cfg(gmsol_verif)]
+pub mod verif_hooks {
+    use crate::states::{InstructionHeader, TimelockConfig};
+    use anchor_lang::prelude::*;
+
+    /// See `InstructionHeader::approve`.
+    pub fn approve(header: &mut InstructionHeader, approver: Pubkey) -> Result<()> {
+        header.approve(approver)
+    }
+
+    /// See `TimelockConfig::increase_delay`.
+    pub fn increase_delay(config: &mut TimelockConfig, delta: u32) -> Result<u32> {
+        config.increase_delay(delta)
+    }
+}
+
 use gmsol_store::{utils::CpiAuthenticate, CoreError};
 use instructions::*;
 
